@@ -8,8 +8,9 @@
 (*   - no sink downstream of the failure publishes a result, partial or    *)
 (*     complete                                  (kind result_after_crash) *)
 (*   - all workers unwind: the run ends          (kind hang_after_crash)   *)
-(*   case {id, crashed: <<[b, h] replicas whose user function panicked>>,  *)
-(*         edges: <<[from, to]>>, replicas: <<[b, h]>>,                    *)
+(*   case {id, crashed: <<[b, h, c] replicas whose user function panicked>>,*)
+(*         edges: <<[from, to]>> (blocks), links: <<[from, to]>> (replica   *)
+(*         coordinates), replicas: <<[b, h, c]>>,                           *)
 (*         hosts: <<[h, failed]>>, sinks: <<[id, b, published, h]>>, hung}  *)
 (* The blocks/edges/replica placement come from the execution graph dump.  *)
 (***************************************************************************)
@@ -31,9 +32,13 @@ Reach(S, edges) ==
 Case(e) ==
   LET cblocks == {c.b : c \in Range(e.crashed)}
       all    == Reach(cblocks, Range(e.edges))
-      (* strictly downstream blocks: reachable through at least one edge *)
-      down   == Reach({x.to : x \in {y \in Range(e.edges) : y.from \in cblocks}}, Range(e.edges))
-      must   == {c.h : c \in Range(e.crashed)} \cup {r.h : r \in {x \in Range(e.replicas) : x.b \in down}}
+      (* "the failed replica or anything downstream of it": replicas reachable from the failed   *)
+      (* REPLICA through the replica-level links of the execution graph (a same-index forward    *)
+      (* connection does not make the sibling lanes downstream of it)                            *)
+      rdown  == Reach({x.to : x \in {y \in Range(e.links) : y.from \in {c.c : c \in Range(e.crashed)}}},
+                      Range(e.links))
+      down   == {r.b : r \in {x \in Range(e.replicas) : x.c \in rdown}}
+      must   == {c.h : c \in Range(e.crashed)} \cup {r.h : r \in {x \in Range(e.replicas) : x.c \in rdown}}
       masked == {h \in Range(e.hosts) : h.h \in must /\ ~h.failed}
       (* a sink is downstream of the failure when the block that feeds it is the failed block *)
       (* or downstream of it (s.b is the block of the sink's input)                           *)
